@@ -53,6 +53,13 @@ def cases(tier, cfg, seed):
             types = ['double', 'int'] if (tier == 'quick' and pi == 0) else (['double'] if tier == 'quick' else ALLT)
             if tier == 'quick' and pi == 1 and ti % 2: continue
             for T in types: add(Ein(T, lists, ext, tag='e3'))
+    # chains with a free index on the first and last operand, on extents that make each depth-first order the cheapest in turn
+    for pal in ([8, 3, 3, 2], [4, 2, 5, 4], [2, 3, 4, 5], [2, 5, 2, 6]):
+        add(Ein('double', [[0, 1], [1, 2], [2, 3]], assign_extents([[0, 1], [1, 2], [2, 3]], pal), tag='e3c'))
+    for pal in ([6, 5, 4, 3, 2], [4, 2, 5, 4, 4], [2, 3, 4, 5, 6], [3, 3, 3, 3, 3], [2, 6, 2, 6, 2], [5, 2, 2, 2, 5]):
+        ch = [[0, 1], [1, 2], [2, 3], [3, 4]]
+        add(Ein('double', ch, assign_extents(ch, pal), tag='e4c'))
+        if pal[0] != pal[1]: add(Ein('int', ch, assign_extents(ch, pal), tag='e4c'))
     if tier != 'quick':
         t33 = topologies(3, 3); rng.shuffle(t33)
         for lists in t33[:60]: add(Ein('double', lists, assign_extents(lists, [2, 3, 2, 4, 3, 2, 2, 3, 2]), tag='e3'))
